@@ -3,6 +3,9 @@
 import json, subprocess
 ALL = ["C%02d" % i for i in range(1, 21)]
 CLAIMED = {
+ "C06": dict(level="fault_enumeration", technique="fault and crash injection at the core.Storage boundary with a live-vs-reloaded differential: storage wrapper (snapshot after every write, fail call k), SIGKILL of a sub-process right after bolt write k, aliasing canary",
+   text="For generated histories on {indexed, linear} x {memory, bolt} every prefix is a reload point, every storage write a crash point (judged per id: old or new value) and every storage call a fault point (the issuing operation must fail); within each history the enumeration of points is complete (bolt kill points sampled in quick, complete in thorough); histories themselves are sampled.",
+   note="Trusts bolt's transaction atomicity; remote back ends out of reach; the live location is the reference for crash points.", ref="§5 C06"),
  "C20": dict(level="exploration", technique="offline checkers over timestamped event logs (sliding-window rate bound and recovery on [before, after] intervals), runtime invariants for capacity (size<=max, refusal without side effects) and throttle (at-most-once, pending bound), under the Go race detector",
    text="Capacity histories around MaxFacts (sequential and concurrent adders), breaker runs with 1-16 concurrent callers and hostile arrival patterns logged with monotonic intervals and checked for any limit+1 admissions certainly inside one window and for refusals after certain age-out, and throttle runs with many submitters; held-on-K-runs assurance.",
    note="Breaker verdicts need certainty from interval arithmetic (no wall-clock deadlines); refusals after age-out that the breaker's own whole-tick accounting cannot exclude are attributed to the open finding c20.breaker-slide-drops-remainder.", ref="§5 C20"),
